@@ -1,0 +1,13 @@
+//go:build verif
+
+// Contracts for the verification machinery in /verif (comment only, no code).
+package security
+
+// a forced conversion (recovery, force-create) never fails for lack of user information and never dereferences a
+// missing user-group message
+//@ func (c *UserGroupCache) ConvertUGI(ugi *si.UserGroupInformation, force bool) (ug UserGroup, err error)
+//@   props C13 C12
+//@   sweep
+//@   mode nopanic=off
+//@   at[present] fieldaddr UserGroupInformation.User#*: assert base != nil
+//@   at[presentg] fieldaddr UserGroupInformation.Groups#*: assert base != nil
